@@ -298,8 +298,8 @@ theorem scrollUp_spec (stops : Bool) (g : Int) (hs : List Nat) (s1 : St) (ah1 ah
     cases he
     exact ⟨trivial, by simp [Heights], by simp, fun _ => rfl, rfl, rfl⟩
 
-theorem reveal_spec {gap : Int} {hs : List Nat} (above : Bool) (cs : List Child) (s : St) (H : Nat) (cs2 : List Child) (s3 : St)
-    (he : reveal above cs s H = .ok (cs2, s3)) (hc : Contig gap cs) (hh : Heights hs cs) :
+theorem reveal_spec {gap : Int} {hs : List Nat} (above u : Bool) (cs : List Child) (s : St) (H : Nat) (cs2 : List Child) (s3 : St)
+    (he : reveal above u cs s H = .ok (cs2, s3)) (hc : Contig gap cs) (hh : Heights hs cs) :
     Contig gap cs2 ∧ Heights hs cs2 := by
   unfold reveal at he
   split at he
@@ -348,22 +348,20 @@ theorem draw_layout (guard : Facts) (cfg : Cfg) (hs : List Nat) (s : St) (W H : 
         · cases he
         · rename_i cs2 s3 hrev
           cases he
-          exact reveal_spec _ _ _ _ _ _ hrev dd.1 dd.2
+          exact reveal_spec _ _ _ _ _ _ _ hrev dd.1 dd.2
 
 /-! ### an empty list never panics -/
 
 /-- Invariant for a builder without items: the top stays 0 and the cursor is a sane `uint`
-    (below 2^63, so that `int(cursor)` is not negative). -/
-def EmptyInv (s : St) : Prop := s.top = 0 ∧ s.cursor < 2 ^ 63
+    value. -/
+def EmptyInv (s : St) : Prop := s.top = 0 ∧ s.cursor < U
 
-theorem cursorChild_nil (cursor : Nat) (h : cursor < 2 ^ 63) : cursorChild [] cursor 0 = .ok none := by
-  have hu : usub cursor 0 = cursor := by unfold usub U; omega
+theorem cursorChild_nil (cursor : Nat) (h : cursor < U) : cursorChild true [] cursor 0 = .ok none := by
+  have hu : usub cursor 0 = cursor := by unfold usub U at *; omega
   unfold cursorChild
-  simp only [hu, toInt, h, if_true, List.length_nil]
-  have : ¬ ((cursor : Int) < ((0 : Nat) : Int)) := by omega
-  simp
+  simp [hu]
 
-theorem draw_empty (guard : Facts) (cfg : Cfg) (s : St) (W H : Nat) (hi : EmptyInv s)
+theorem draw_empty (guard : Facts) (hu : guard.uintIndex = true) (cfg : Cfg) (s : St) (W H : Nat) (hi : EmptyInv s)
     (hW : W ≠ 65535) (hH : H ≠ 65535) :
     ∃ s', draw guard cfg [] s W H = .ok (s', []) ∧ EmptyInv s' := by
   obtain ⟨ht, hc⟩ := hi
@@ -378,19 +376,20 @@ theorem draw_empty (guard : Facts) (cfg : Cfg) (s : St) (W H : Nat) (hi : EmptyI
   unfold draw
   rw [hcl]
   have hb : ¬ (H = 65535 ∨ W = 65535) := by omega
-  simp only [hb, if_false, scrollUp, hah, List.drop_nil, drawDown, gutter, reveal]
-  have hcc : cursorChild [] (prologue s).2.cursor (prologue s).2.top = .ok none := by
+  simp only [hb, if_false, scrollUp, hah, List.drop_nil, drawDown, gutter, reveal, hu]
+  have hcc : cursorChild true [] (prologue s).2.cursor (prologue s).2.top = .ok none := by
     rw [p1, p2, ht]; exact cursorChild_nil _ hc
   simp only [hcc, ite_self]
   exact ⟨_, rfl, by simp [retop, p1, ht], by simp [p2, hc]⟩
 
-/-- Operations a sane caller issues: cursors below 2^63, bounded draw contexts. -/
+/-- Operations the API admits: cursors are `uint` values (below 2^64), draw contexts are bounded
+    (`Dynamic.Draw` panics by design otherwise). -/
 def OpOk : Op → Prop
-  | .setCursor c => c < 2 ^ 63
+  | .setCursor c => c < U
   | .draw W H => W ≠ 65535 ∧ H ≠ 65535
   | _ => True
 
-theorem step_empty (guard : Facts) (cfg : Cfg) (s : St) (op : Op) (hi : EmptyInv s) (ho : OpOk op) :
+theorem step_empty (guard : Facts) (hu : guard.uintIndex = true) (cfg : Cfg) (s : St) (op : Op) (hi : EmptyInv s) (ho : OpOk op) :
     ∃ s', step guard cfg [] s op = .ok s' ∧ EmptyInv s' := by
   obtain ⟨ht, hc⟩ := hi
   cases op with
@@ -412,15 +411,15 @@ theorem step_empty (guard : Facts) (cfg : Cfg) (s : St) (op : Op) (hi : EmptyInv
     simp [step, wheelUp, ht]
   | pending k => exact ⟨_, rfl, ht, hc⟩
   | draw W H =>
-    obtain ⟨s', he, hi'⟩ := draw_empty guard cfg s W H ⟨ht, hc⟩ ho.1 ho.2
+    obtain ⟨s', he, hi'⟩ := draw_empty guard hu cfg s W H ⟨ht, hc⟩ ho.1 ho.2
     exact ⟨s', by simp [step, he], hi'⟩
 
-theorem run_empty (guard : Facts) (cfg : Cfg) : ∀ (ops : List Op) (s : St), EmptyInv s →
+theorem run_empty (guard : Facts) (hu : guard.uintIndex = true) (cfg : Cfg) : ∀ (ops : List Op) (s : St), EmptyInv s →
     (∀ op ∈ ops, OpOk op) → ∃ s', run guard cfg [] s ops = .ok s' ∧ EmptyInv s'
   | [], s, hi, _ => ⟨s, rfl, hi⟩
   | op :: ops, s, hi, ho => by
-    obtain ⟨s1, he, hi1⟩ := step_empty guard cfg s op hi (ho op List.mem_cons_self)
-    obtain ⟨s2, he2, hi2⟩ := run_empty guard cfg ops s1 hi1 (fun o h => ho o (List.mem_cons_of_mem _ h))
+    obtain ⟨s1, he, hi1⟩ := step_empty guard hu cfg s op hi (ho op List.mem_cons_self)
+    obtain ⟨s2, he2, hi2⟩ := run_empty guard hu cfg ops s1 hi1 (fun o h => ho o (List.mem_cons_of_mem _ h))
     exact ⟨s2, by simp [run, he, he2], hi2⟩
 
 /-! ### the cursor is brought into view -/
@@ -510,9 +509,9 @@ theorem contig_get_idx {gap : Int} : ∀ (cs : List Child) (f : Child), Contig g
       have l1 := hc.1.1
       omega
 
-theorem usub_le {cursor top : Nat} (h1 : top ≤ cursor) (h2 : cursor < 2 ^ 63) :
+theorem usub_le {cursor top : Nat} (h1 : top ≤ cursor) (h2 : cursor < U) :
     usub cursor top = cursor - top := by
-  unfold usub U; omega
+  unfold usub U at *; omega
 
 theorem toInt_small {u : Nat} (h : u < 2 ^ 63) : toInt u = (u : Int) := by
   unfold toInt; rw [if_pos h]
@@ -523,15 +522,13 @@ theorem getElem?_lt {α} {l : List α} {i : Nat} {x : α} (h : l[i]? = some x) :
   · rw [List.getElem?_eq_none h'] at h; cases h
 
 theorem cursorChild_hit (cs : List Child) (cursor top : Nat) (c : Child)
-    (h1 : top ≤ cursor) (h2 : cursor < 2 ^ 63) (hc : cs[cursor - top]? = some c) :
-    cursorChild cs cursor top = .ok (some c) := by
+    (h1 : top ≤ cursor) (h2 : cursor < U) (hc : cs[cursor - top]? = some c) :
+    cursorChild true cs cursor top = .ok (some c) := by
   have hu : usub cursor top = cursor - top := usub_le h1 h2
-  have ht : toInt (cursor - top) = ((cursor - top : Nat) : Int) := toInt_small (by omega)
   have hl : cursor - top < cs.length := getElem?_lt hc
   unfold cursorChild
-  simp only [hu, ht, hc]
-  have : ((cursor - top : Nat) : Int) < (cs.length : Int) := by omega
-  rw [if_pos this]
+  simp only [hu, hc, if_true]
+  rw [if_pos hl]
 
 /-- What "visible" means for the selected child `c` in a viewport of `H` rows. -/
 def Visible (H : Nat) (c : Child) : Prop :=
@@ -542,8 +539,8 @@ def Visible (H : Nat) (c : Child) : Prop :=
     viewport → its bottom is brought to the last row; above → its top to row 0. -/
 theorem reveal_visible (cs : List Child) (s : St) (H : Nat) (c : Child)
     (hH : 1 ≤ H) (hh : 1 ≤ c.height) (hw : s.wantsCursor = true)
-    (hcc : cursorChild cs s.cursor s.top = .ok (some c)) (hmem : c ∈ cs) :
-    ∃ cs2 s3, reveal true cs s H = .ok (cs2, s3) ∧ ∃ c' ∈ cs2, c'.idx = c.idx ∧ c'.height = c.height ∧ Visible H c' := by
+    (hcc : cursorChild true cs s.cursor s.top = .ok (some c)) (hmem : c ∈ cs) :
+    ∃ cs2 s3, reveal true true cs s H = .ok (cs2, s3) ∧ ∃ c' ∈ cs2, c'.idx = c.idx ∧ c'.height = c.height ∧ Visible H c' := by
   by_cases hb : c.row + (c.height : Int) > H
   · refine ⟨cs.map fun x => { x with row := x.row + ((H : Int) - (c.row + (c.height : Int))) },
       { s with wantsCursor := false }, ?_,
